@@ -8,6 +8,7 @@
 package mcast
 
 import (
+	"encoding/binary"
 	"fmt"
 	"net"
 	"os"
@@ -20,6 +21,7 @@ import (
 // Captured is one datagram seen leaving the host for the group.
 type Captured struct {
 	T       time.Duration // since Open
+	Kernel  bool          // T is the kernel's transmit timestamp, not the capture goroutine's read time
 	SrcPort int
 	Bytes   []byte
 }
@@ -37,6 +39,26 @@ type Link struct {
 	mu     sync.Mutex
 	frames []Captured
 	n      atomic.Int64
+	kts    atomic.Int64
+}
+
+// KernelStamped returns how many captured datagrams carry the kernel's
+// transmit timestamp (the others carry the capture goroutine's read time).
+func (l *Link) KernelStamped() int { return int(l.kts.Load()) }
+
+func kernelStamp(oob []byte) (time.Time, bool) {
+	msgs, err := syscall.ParseSocketControlMessage(oob)
+	if err != nil {
+		return time.Time{}, false
+	}
+	for _, m := range msgs {
+		if m.Header.Level == syscall.SOL_SOCKET && m.Header.Type == syscall.SO_TIMESTAMPNS && len(m.Data) >= 16 {
+			sec := int64(binary.LittleEndian.Uint64(m.Data[0:8]))
+			nsec := int64(binary.LittleEndian.Uint64(m.Data[8:16]))
+			return time.Unix(sec, nsec), true
+		}
+	}
+	return time.Time{}, false
 }
 
 func htons(v uint16) uint16 { return v<<8 | v>>8 }
@@ -54,6 +76,9 @@ func Open(id int) (*Link, error) {
 	}
 	syscall.SetsockoptTimeval(fd, syscall.SOL_SOCKET, syscall.SO_RCVTIMEO, &syscall.Timeval{Usec: 20000})
 	syscall.SetsockoptInt(fd, syscall.SOL_SOCKET, syscall.SO_RCVBUF, 8<<20)
+	// kernel transmit timestamps: the capture goroutine may be scheduled late and then
+	// reads queued packets in a bunch, so its own clock would compress the gaps
+	syscall.SetsockoptInt(fd, syscall.SOL_SOCKET, syscall.SO_TIMESTAMPNS, 1)
 	l.fd = fd
 	gaddr, _ := net.ResolveUDPAddr("udp4", l.Group)
 	inj, err := net.DialUDP("udp4", nil, gaddr)
@@ -66,15 +91,21 @@ func Open(id int) (*Link, error) {
 	go func() {
 		defer syscall.Close(fd)
 		buf := make([]byte, 65536)
+		oob := make([]byte, 256)
 		for {
 			select {
 			case <-l.stop:
 				return
 			default:
 			}
-			n, from, err := syscall.Recvfrom(fd, buf, 0)
+			n, oobn, _, from, err := syscall.Recvmsg(fd, buf, oob, 0)
 			if err != nil || n < 14+20+8 {
 				continue
+			}
+			at := time.Since(l.start)
+			ts, kernel := kernelStamp(oob[:oobn])
+			if kernel {
+				at = ts.Sub(l.start)
 			}
 			ll, _ := from.(*syscall.SockaddrLinklayer)
 			if ll == nil || ll.Pkttype != 4 { // PACKET_OUTGOING only
@@ -102,8 +133,11 @@ func Open(id int) (*Link, error) {
 				continue
 			}
 			l.mu.Lock()
-			l.frames = append(l.frames, Captured{T: time.Since(l.start), SrcPort: src, Bytes: append([]byte(nil), udp[8:ulen]...)})
+			l.frames = append(l.frames, Captured{T: at, Kernel: kernel, SrcPort: src, Bytes: append([]byte(nil), udp[8:ulen]...)})
 			l.mu.Unlock()
+			if kernel {
+				l.kts.Add(1)
+			}
 			l.n.Add(1)
 		}
 	}()
